@@ -91,7 +91,7 @@ func runC07(t *testing.T, env core.Env, rep *core.Report) {
 		depth = 8
 	}
 	depthOf := func(sc *Scenario) int {
-		if len(sc.BadNodes) > 0 {
+		if sc.BanSeconds > 0 {
 			return depth + 1 // connect x2, deliver, tick x2, deliver, connect
 		}
 		return depth
@@ -103,12 +103,38 @@ func runC07(t *testing.T, env core.Env, rep *core.Report) {
 			_, _ = progress.WriteAt([]byte(fmt.Sprintf("%-400.400s", s)), 0)
 		}
 	}
-	for si, sc := range scs {
-		if !env.Mine(si) || rep.Expired() {
+	// jobs: one per scenario; the scenarios with three nodes are split by their first event (each
+	// subtree searched on its own, by whichever shard owns it - duplicates across subtrees are the
+	// price of the spread)
+	type job struct {
+		sc    *Scenario
+		first []Event
+		root  bool
+	}
+	var jobs []job
+	for _, sc := range scs {
+		if len(sc.Nodes) < 3 {
+			jobs = append(jobs, job{sc, nil, true})
 			continue
 		}
+		root := Run(t, sc, nil, false, 2)
+		for i, e := range root.Enabled {
+			jobs = append(jobs, job{sc, []Event{e}, i == 0})
+		}
+	}
+	for ji, jb := range jobs {
+		if !env.Mine(ji) || rep.Expired() {
+			continue
+		}
+		sc := jb.sc
 		seen := map[string]bool{}
 		frontier := [][]Event{nil}
+		if jb.first != nil {
+			frontier = [][]Event{jb.first}
+			if jb.root {
+				frontier = [][]Event{nil, jb.first} // the empty history is judged once
+			}
+		}
 		depth := depthOf(sc)
 		for d := 0; d <= depth && len(frontier) > 0; d++ {
 			var next [][]Event
@@ -138,8 +164,8 @@ func runC07(t *testing.T, env core.Env, rep *core.Report) {
 				rep.Sample(func() any {
 					return map[string]any{"scenario": sc.Name, "events": evs(hist), "offending_header_delivered": out.Misbehaved}
 				})
-				if d == depth {
-					continue
+				if len(hist) >= depth || (jb.first != nil && len(hist) == 0) {
+					continue // (the empty history of a split scenario is expanded by the jobs themselves)
 				}
 				for _, e := range out.Enabled {
 					if e.Kind == "drop" || e.Kind == "mute" || e.Kind == "announce" || e.Kind == "announce-headers" {
